@@ -110,7 +110,7 @@ def main(tier, seed):
     cov = aggregate(results)
     cov["rule"] = ("1-4 initiators x arbiter feature subsets x initiator feature policies (same/all/minimal/mixed) x "
                    "granularity ratios 1-8; full BFS; letters = all (cyc,stb,lock) per initiator x 6 token phases x all target responses")
-    return finish(PID, tier, seed, "model_checking", cov, ASSUMPTIONS, t0, results)
+    return finish(PID, tier, seed, "model_checking", cov, ASSUMPTIONS, t0, results, min_explored=int(0.9 * len(results)))
 
 
 ASSUMPTIONS = [
